@@ -469,7 +469,7 @@ func (mon) Plan(prop, tier string, seed int64) []drv.Shard {
 	parts := 8
 	nrand, nequiv, nconc, nrace := 2000, 3, 20, 6
 	if tier == "thorough" {
-		nrand, nequiv, nconc, nrace = 100000, 4, 1000, 100
+		nrand, nequiv, nconc, nrace = 400000, 5, 4000, 300
 	}
 	for p := 0; p < parts; p++ {
 		a, _ := json.Marshal(shardArgs{Kind: "sweep", Part: p, Parts: parts})
@@ -682,7 +682,7 @@ func (mn mon) Run(sh drv.Shard, c *drv.Ctx) {
 			}
 			return true
 		})
-		// raw argument lists: every list of <= 4 tokens
+		// raw argument lists: every list of <= 4 (thorough: 5) tokens
 		{
 			toks := []string{"s:k", "s:x", "i", "f", "n", "A", "G", "E", "N", "I", "L", "V", "e"}
 			var cur []string
@@ -699,7 +699,7 @@ func (mn mon) Run(sh drv.Shard, c *drv.Ctx) {
 						}
 					}
 				}
-				if d == 4 {
+				if d == 4+(a.Count-3)/2 { // 4 arguments; 5 in the thorough tier
 					return true
 				}
 				for _, t := range toks {
